@@ -49,6 +49,10 @@ type c19Expiry struct {
 	// Again: after the first expiry (counter 0) trigger once more with length enabled, in the
 	// first (1) or second (2) half, and run to the second expiry (reload to the maximum).
 	Again int `json:"again,omitempty"`
+	// Load: when the length data is written relative to the power cycle that starts the run:
+	// "" after power-on (default), "before" the power-off (the counter must survive the power cycle),
+	// "off" while powered off (length registers stay writable then).
+	Load string `json:"load,omitempty"`
 }
 
 func c19ExpiryCheck(l *explore.Local, _ struct{}, c c19Expiry) *explore.Fail {
@@ -59,13 +63,26 @@ func c19ExpiryCheck(l *explore.Local, _ struct{}, c c19Expiry) *explore.Fail {
 		p.write(a, v)
 		return p.compareNR52(ctx)
 	}
+	loadAt := func(when string) func() *explore.Fail {
+		return func() *explore.Fail {
+			if c.Load == when {
+				return w(r.len, c.T)
+			}
+			return nil
+		}
+	}
+	if c.Load != "" {
+		ctx += " length loaded " + map[string]string{"before": "before the power cycle", "off": "while powered off"}[c.Load]
+	}
 	steps := []func() *explore.Fail{
+		loadAt("before"),
 		func() *explore.Fail { return w(0xff26, 0x00) },
+		loadAt("off"),
 		func() *explore.Fail { return w(0xff26, 0x80) },
 		func() *explore.Fail { return w(r.dac, r.dacOn) },
 		func() *explore.Fail { return w(0xff13, 0xff) },
 		func() *explore.Fail { return w(0xff10, 0x00) },
-		func() *explore.Fail { return w(r.len, c.T) },
+		loadAt(""),
 		func() *explore.Fail {
 			n := 1
 			if c.First {
@@ -155,7 +172,7 @@ func init() {
 					}
 				}
 			}, func() struct{} { return struct{}{} }, apuDFS)
-		explore.Product(c.R, "expiry-runs", explore.PartOpt{Bound: "run to expiry, every cycle compared", Domain: "channel x t x half x enable mode x skew {0,1,700}"},
+		explore.Product(c.R, "expiry-runs", explore.PartOpt{Bound: "run to expiry, every cycle compared", Domain: "channel x t x half x enable mode x skew {0,1,700}; length data written after / before / during the power-off that precedes the run"},
 			func(yield func(c19Expiry) bool) {
 				for ch := 0; ch < 4; ch++ {
 					var ts []uint8
@@ -174,6 +191,13 @@ func init() {
 								for _, skew := range []int{0, 1, 700} {
 									if !yield(c19Expiry{Ch: ch, T: t, First: first, After: after, Skew: skew}) {
 										return
+									}
+									if skew == 0 {
+										for _, load := range []string{"before", "off"} {
+											if !yield(c19Expiry{Ch: ch, T: t, First: first, After: after, Load: load}) {
+												return
+											}
+										}
 									}
 									if skew == 0 && (t == uint8(max-1) || t == uint8(max-2)) && !(ch == 2 && !c.Thorough() && after) {
 										for again := 1; again <= 2; again++ {
